@@ -266,7 +266,14 @@ func runC03Gate(c *Ctx) {
 	}
 }
 
+var nonNilErrVisiting = map[*ssa.Return]bool{}
+
 func provablyNonNilErr(r *ssa.Return) bool {
+	if nonNilErrVisiting[r] {
+		return false // recursion: assume nothing
+	}
+	nonNilErrVisiting[r] = true
+	defer delete(nonNilErrVisiting, r)
 	er := r.Results[len(r.Results)-1]
 	if isNilConst(er) {
 		return false
